@@ -572,6 +572,76 @@ pub fn gen_ske_body(t: &mut Tape, budget: usize) -> Vec<u8> {
     e.buf
 }
 
+/// DER length octets
+fn der_len(e: &mut Enc, n: usize, force_long: bool) {
+    if n < 128 && !force_long {
+        e.u8(n as u8);
+    } else if n < 256 && !force_long {
+        e.u8(0x81);
+        e.u8(n as u8);
+    } else {
+        e.u8(0x82);
+        e.u16(n as u16);
+    }
+}
+
+/// what a certificate entry looks like on the wire: X.509 DER, `SEQUENCE { tbsCertificate SEQUENCE {..}, algorithm, signature }`,
+/// mostly with the two-octet length form real certificates have (`30 82 hi lo 30 82 ..`); the outer length is right, or off by a few
+/// bytes, or larger than the entry (the TLS layer carries the bytes as they are - what they mean is not its business); sometimes a raw
+/// public key (RFC 7250, 44 bytes) or an empty entry
+pub fn gen_der_certificate(t: &mut Tape, budget: usize) -> Vec<u8> {
+    match t.weighted(&[8, 1, 1]) {
+        1 => return hex_ed25519_spki(t),
+        2 => return vec![],
+        _ => {}
+    }
+    let body_len = t.pick(&[0usize, 4, 8, 40, 300, 700, 1100]).min(budget.saturating_sub(8));
+    let mut inner = Enc::new();
+    inner.u8(0x30);
+    let tbs = body_len / 2;
+    der_len(&mut inner, tbs, t.chance(200));
+    inner.bytes(&t.bytes(tbs));
+    inner.bytes(&t.bytes(body_len - tbs));
+    let mut e = Enc::new();
+    e.u8(0x30);
+    let declared = match t.weighted(&[5, 2, 1, 1]) {
+        0 => inner.buf.len(),
+        1 => inner.buf.len().wrapping_add(t.pick(&[1usize, 4, 0xffff_ffff_ffff_fffc, 0xffff_ffff_ffff_ffff])) & 0xffff,
+        2 => 0xffff,
+        _ => 0,
+    };
+    der_len(&mut e, declared, t.chance(220));
+    e.bytes(&inner.buf);
+    e.buf
+}
+
+fn hex_ed25519_spki(t: &mut Tape) -> Vec<u8> {
+    let mut v = vec![0x30, 0x2a, 0x30, 0x05, 0x06, 0x03, 0x2b, 0x65, 0x70, 0x03, 0x21, 0x00];
+    v.extend(t.bytes(32));
+    v
+}
+
+/// an OCSPResponse (RFC 6960 4.2.1): `SEQUENCE { responseStatus ENUMERATED, responseBytes [0] EXPLICIT .. OPTIONAL }` - the error
+/// forms (status 1..6, no bytes) and the successful form with a body
+pub fn gen_ocsp_response(t: &mut Tape, budget: usize) -> Vec<u8> {
+    let status = if t.bool() { t.pick(&[1u8, 2, 3, 5, 6]) } else { 0 };
+    let mut e = Enc::new();
+    e.u8(0x30);
+    if status != 0 || t.chance(40) {
+        e.u8(3);
+        e.bytes(&[0x0a, 0x01, status]);
+    } else {
+        let n = t.pick(&[20usize, 200, 600]).min(budget.saturating_sub(16));
+        let body = t.bytes(n);
+        der_len(&mut e, 3 + 4 + n, true);
+        e.bytes(&[0x0a, 0x01, 0x00, 0xa0, 0x82]);
+        e.u16(n as u16);
+        e.bytes(&body);
+    }
+    e.buf.truncate(budget);
+    e.buf
+}
+
 /// an ECDSA signature value as it travels inside DigitallySigned: DER SEQUENCE of two INTEGERs, with the values a verifier must
 /// look at twice (zero, one, leading zero octet, 32 / 33 octets)
 pub fn gen_der_ecdsa_sig(t: &mut Tape) -> Vec<u8> {
@@ -724,7 +794,7 @@ pub fn gen_hs_kind(t: &mut Tape, kind: usize, budget: usize) -> MHs {
             let mut left = b;
             for i in 0..n {
                 // long chains are made of tiny entries
-                let c = if n > 20 { vec![i as u8; i % 3] } else { t.blob(left.min(3000)) };
+                let c = if n > 20 { vec![i as u8; i % 3] } else if t.chance(90) { gen_der_certificate(t, left.min(3000)) } else { t.blob(left.min(3000)) };
                 left = left.saturating_sub(c.len() + 3);
                 chain.push(c);
             }
@@ -759,7 +829,13 @@ pub fn gen_hs_kind(t: &mut Tape, kind: usize, budget: usize) -> MHs {
         11 => MHs::CertificateVerify(t.blob(b)),
         12 => MHs::ClientKeyExchange(gen_cke_body(t, b)),
         13 => MHs::Finished(t.blob(b.min(4096))),
-        14 => MHs::CertificateStatus { ty: t.u8(), blob: t.blob(b) },
+        14 => {
+            if t.chance(128) {
+                MHs::CertificateStatus { ty: if t.chance(230) { 1 } else { t.u8() }, blob: gen_ocsp_response(t, b) }
+            } else {
+                MHs::CertificateStatus { ty: t.u8(), blob: t.blob(b) }
+            }
+        }
         15 => MHs::NextProtocol { proto: t.blob(255), padding: t.blob(255) },
         _ => MHs::KeyUpdate(t.u8()),
     }
